@@ -9,7 +9,7 @@ from vlib import *
 
 HOOK_FLAGS = ['-O1', '-DNDEBUG', '-DUNODB_DETAIL_WITH_STATS', '-DUNODB_SPINLOCK_LOOP_VALUE=1', '-DUNODB_DETAIL_VERIF_HOOKS']
 N = 4
-PROPS = {'C05': ['Properties/Properties_C05.v', 'Properties/Properties_C05b.v'], 'C06': ['Properties/Properties_C06.v', 'Properties/Properties_C06b.v']}
+PROPS = {'C05': ['Properties/Properties_C05.v', 'Properties/Properties_C05b.v', 'Properties/Properties_C05c.v'], 'C06': ['Properties/Properties_C06.v', 'Properties/Properties_C06b.v', 'Properties/Properties_C05c.v']}
 
 
 def enabled_ops(reg, n):
